@@ -77,7 +77,7 @@ pub struct KpEntry {
 
 pub struct CommitEntry {
     pub by: String,
-    pub output: CommitOutput,
+    pub welcomes: Vec<MlsMessage>,
     pub msg: MlsMessage,
     pub tree: Option<Vec<u8>>, // exported tree bytes of the new epoch (out of band)
     pub base_epoch: u64,
